@@ -166,10 +166,21 @@ fn run_plan(rig: &mut Rig, plan: &Plan) -> Vec<i64> {
         }
         let base2 = signal_tx.receiver_count();
         let mut cl = StdUnix::connect(&*path).unwrap();
+        if plan.endmode == 3 {
+            // the client says everything and is gone before the daemon has even accepted the connection
+            // (it sits in the listen backlog): replies can no longer be delivered, what it said still counts
+            use std::io::Write as _;
+            for ch in plan.chunks.iter() { let _ = cl.write_all(ch); }
+            drop(cl);
+            cl = StdUnix::connect(&*path).unwrap();          // an idle placeholder so the code below has a socket to close
+            server.wait_io_sub(command_tx.clone(), signal_tx.subscribe()).await;     // accepts the finished client
+            for _ in 0..400 { tokio::time::sleep(tick).await; if signal_tx.receiver_count() <= base2 { break; } }
+        }
         cl.set_nonblocking(true).ok();
         server.wait_io_sub(command_tx.clone(), signal_tx.subscribe()).await;
         tokio::time::sleep(tick).await;
         for (i, ch) in plan.chunks.iter().enumerate() {
+            if plan.endmode == 3 { break; }
             if !ch.is_empty() {
                 // the socket buffer is large enough for any chunk we send (<= ~8 kB)
                 let mut off = 0;
@@ -188,6 +199,11 @@ fn run_plan(rig: &mut Rig, plan: &Plan) -> Vec<i64> {
             if burst > 0 {
                 for _ in 0..burst { let _ = signal_tx.send(the_signal()); }
                 tokio::time::sleep(tick).await;
+            }
+            // an entry 1000+i: the peer goes quiet for more than a second after write i (a stalled or
+            // suspended client, a congested link); the stream means the same whenever its bytes arrive
+            if plan.sigs.iter().any(|x| *x == 1000 + i as i64) {
+                tokio::time::sleep(Duration::from_millis(1200)).await;
             }
         }
         match plan.endmode {
